@@ -248,7 +248,32 @@ class Model:
         if name in m.assigns:
             return "const", (m, m.assigns[name])
         if name in m.imports:
-            mod, attr = m.imports[name]
+            return self.resolve_import(*m.imports[name], _depth=_depth)
+        return None
+
+    def import_target(self, m: ModuleInfo, st) -> Dict[str, tuple]:
+        """local name -> (module, attribute) of an import statement found
+        inside a function of module *m*"""
+        out = {}
+        if isinstance(st, ast.Import):
+            for a in st.names:
+                local = a.asname or a.name.split(".")[0]
+                out[local] = (a.name if a.asname else a.name.split(".")[0],
+                              None)
+        else:
+            if st.level:
+                base = m.package.split(".")
+                if st.level > 1:
+                    base = base[: len(base) - (st.level - 1)]
+                mod = ".".join(base + ([st.module] if st.module else []))
+            else:
+                mod = st.module or ""
+            for a in st.names:
+                out[a.asname or a.name] = (mod, a.name)
+        return out
+
+    def resolve_import(self, mod, attr, _depth: int = 0):
+        if True:
             if attr is None:
                 if mod in self.modules:
                     return "module", self.modules[mod]
